@@ -755,6 +755,9 @@ class Interp(object):
 
     def call(self, ctx, fr, fv, args, kwargs, node=None, star=None):
         fv = self.resolve(ctx, fv)
+        cur = self.engine.current
+        if cur is not None and cur.at_call and not fr.spec and not getattr(ctx, 'no_branch', 0):
+            self.engine.at_call_obligations(ctx, fr, fv, args, kwargs, node, star)
         return self.models.call(self, ctx, fr, fv, args, kwargs, node, star)
 
     def bind_args(self, ctx, fr, fnode, args, kwargs, star, defaults_frame, node, defaults=None):
